@@ -83,6 +83,8 @@ def _cfg(r):
         "meta": r.random() < 0.3,
         "priv": r.random() < 0.3,
         "lazy": r.choice([None, True, False]),
+        # WOFF2 table transforms: default (glyf+loca), none at all, or with the optional hmtx transform
+        "w2t": r.choice([None, None, "none", "hmtx"]),
     }
 
 
@@ -171,10 +173,10 @@ def save_with(font, cfg, scratch, n=[0]):
             fd.privData = b"private-data-\x00\x01\x02" * 3
         fd.majorVersion, fd.minorVersion = 1, 7
         font.flavorData = fd
-    elif cfg["flavor"] == "woff2" and (cfg["meta"] or cfg["priv"]):
+    elif cfg["flavor"] == "woff2" and (cfg["meta"] or cfg["priv"] or cfg.get("w2t")):
         from fontTools.ttLib.woff2 import WOFF2FlavorData
 
-        fd = WOFF2FlavorData()
+        fd = WOFF2FlavorData(transformedTables={"none": [], "hmtx": ["glyf", "loca", "hmtx"]}[cfg["w2t"]]) if cfg.get("w2t") else WOFF2FlavorData()
         if cfg["meta"]:
             fd.metaData = b'<?xml version="1.0" encoding="UTF-8"?><metadata version="1.0"><uniqueid id="verif"/></metadata>'
         if cfg["priv"]:
@@ -602,7 +604,7 @@ def simplify(ctx, h):
     import copy
 
     if "cfg" in h:
-        for k, v in (("flavor", None), ("reorder", True), ("padding", None), ("dest", "bytesio"), ("meta", False), ("priv", False), ("lazy", None), ("recalcBBoxes", True)):
+        for k, v in (("flavor", None), ("reorder", True), ("padding", None), ("dest", "bytesio"), ("meta", False), ("priv", False), ("lazy", None), ("recalcBBoxes", True), ("w2t", None)):
             if h["cfg"].get(k) != v:
                 c = copy.deepcopy(h)
                 c["cfg"][k] = v
